@@ -167,7 +167,16 @@ class WriteHalf(tr_abc.AsyncStreamWriteTransport):
         return self.core.extra_attributes
 
 
-CONN_KINDS = ("single", "stapled")
+CONN_KINDS = ("single", "stapled", "tls")
+
+
+def make_connection(case: dict, be=None, adopt=None):
+    """the Connection of the case's kind ("tls": vlib/c15_tls.TLSConnection - the in-memory listener accepts the WIRE, the
+    library's AsyncTLSListener in front of it makes the AsyncTLSStreamTransport the server sees)"""
+    if case.get("conn", "single") == "tls":
+        from vlib import c15_tls
+        return c15_tls.TLSConnection(case, be=be, adopt=adopt)
+    return Connection(case, be=be, adopt=adopt)
 
 
 class Connection:
@@ -182,7 +191,7 @@ class Connection:
         incoming, t_end, chunks = build_incoming(case)
         self.incoming, self.t_end, self.chunks = incoming, t_end, chunks
         self.kind = case.get("conn", "single")
-        assert self.kind in CONN_KINDS, self.kind
+        assert self.kind in ("single", "stapled"), self.kind
         kw = {"be": be} if be is not None else {}
         ac = case.get("after_close", "ebadf")
         if self.kind == "single":
@@ -371,16 +380,21 @@ def run_session(case: dict) -> tuple[list[str], dict]:
     logging.getLogger("easynetwork").setLevel(logging.CRITICAL)
     log = Log()
     script = Script(case, log)
-    conn = Connection(case)
+    conn = make_connection(case)
     log.probe = lambda: conn.reader.nread
     proto = sd.make_protocol(case["spec"], case["path"], bool(case.get("conv")))
     listener = env.MemListener([conn.transport])
+    tls = conn.kind == "tls"
     layer = case.get("layer", "low")
     aux: dict[str, Any] = {"chunks": conn.chunks, "incoming": conn.incoming, "t_end": conn.t_end}
 
     async def main() -> None:
         be = env.backend()
-        server = AsyncStreamServer(listener, proto, max_recv_size=case.get("max_recv", 16384))
+        front: Any = listener
+        if tls:
+            from vlib import c15_tls
+            front = c15_tls.wrap_listener(listener)       # the library's AsyncTLSListener
+        server = AsyncStreamServer(front, proto, max_recv_size=case.get("max_recv", 16384))
         if layer == "low":
             def cb(client):
                 script.gens_started.append(0)
@@ -391,6 +405,8 @@ def run_session(case: dict) -> tuple[list[str], dict]:
                 yield SimpleClient(ll)
             cb = build_lowlevel_stream_server_handler(initializer, ScriptedHandler(script))
         filt = conn_filter if case.get("filter", True) else None
+        if tls and filt is not None:
+            filt = c15_tls.is_disconnect                  # the filter of the high-level TCP server (ConnectionError, SSL EOF)
 
         async def serve() -> None:
             await server.serve(cb, None, disconnect_error_filter=filt)
